@@ -27,13 +27,13 @@ def harness_source(prelude=()):
     return '\n'.join(lines) + '\n'
 
 
-def load(target, d, prelude=(), name='', std=None):
+def load(target, d, prelude=(), name='', std=None, opt='-O0', extra=()):
     src = os.path.join(d, 'byteorder_harness%s.c' % name)
     with open(src, 'w') as f:
         f.write(harness_source(prelude))
     try:
         _, pstd = build.library_units()
-        bcs = build.compile_units([src], os.path.join(d, 'bo_' + target + name), target=target, std=std or pstd)
+        bcs = build.compile_units([src], os.path.join(d, 'bo_' + target + name), target=target, std=std or pstd, opt=opt, extra=extra)
     except build.BuildError as e:
         raise Broken('byte-order helper unit does not compile (a helper named in DESIGN.md 4.13 is missing?): %s' % e)
     ll = os.path.join(d, 'bo_%s%s.ll' % (target, name))
@@ -45,11 +45,33 @@ def arg(n):
     return bpa.sym_arg('x', n)
 
 
+class Multi(object):
+    """results of one helper in several worlds (e.g. both answers of __builtin_constant_p): every world must satisfy
+    what is asked of the helper"""
+    def __init__(self, rets):
+        self.rets = rets
+
+
 def call(mod, fn, a):
-    ws = bpa.analyse(mod, fn, lambda: ([a], {}), max_worlds=2)
-    if len(ws) != 1 or ws[0].status != 'ok':
+    if isinstance(a, Multi):
+        outs = []
+        for x in a.rets:
+            r, err = call(mod, fn, x)
+            if r is None:
+                return None, err
+            outs.extend(r.rets if isinstance(r, Multi) else [r])
+        return (outs[0] if len(outs) == 1 else Multi(outs)), None
+    ws = bpa.analyse(mod, fn, lambda: ([a], {}), max_worlds=16)
+    ws = [w for w in ws if w.status != 'infeasible' and not B.PathCond(w.decisions).infeasible]
+    if not ws or len(ws) >= 16 or any(w.status != 'ok' for w in ws):
         return None, '; '.join(str(w.reason) for w in ws)
-    return ws[0].ret, None
+    if len(ws) == 1:
+        return ws[0].ret, None
+    return Multi([w.ret for w in ws]), None
+
+
+def each(r):
+    return r.rets if isinstance(r, Multi) else [r]
 
 
 def image(v, n, big):
@@ -73,11 +95,15 @@ def run(tier, res):
     mods = {'le': load('le', d), 'be': load('be', d),
             'le, after <endian.h>, <byteswap.h>, <arpa/inet.h>': load('le', d, LIBC_PRELUDE, '_libc'),
             'le, -std=gnu17, after the C library headers': load('le', d, LIBC_PRELUDE, '_gnu17', std='gnu17'),
-            'le, -std=c99 (no GNU extensions)': load('le', d, (), '_c99', std='c99')}
+            'le, -std=c99 (no GNU extensions)': load('le', d, (), '_c99', std='c99'),
+            'le, i386, front end in -Os mode, __GNUC__ = 12': load('le32', d, (), '_gcclike', opt='-Os',
+                                                                   extra=('-fgnuc-version=12.2.0', '-funsigned-char', '-U__clang__')),
+            'be, mips as GCC presents itself (__GNUC__ = 12, no __BIG_ENDIAN__)': load('be32', d, (), '_gccbe',
+                                                                                       extra=('-fgnuc-version=12.2.0', '-U__BIG_ENDIAN__'))}
     results = {}
     for tg, mod in mods.items():
         big = mod.big_endian
-        if big != (tg == 'be'):
+        if big != tg.startswith('be'):
             raise Broken('target %s did not produce the expected endianness' % tg)
         for n in SIZES:
             nb = n // 8
@@ -91,19 +117,26 @@ def run(tier, res):
                 exp = []
                 for k in range(nb):
                     exp.extend(argbyte(n, nb - 1 - k))
-                st, info = FC.compare_vec(r, tuple(exp), n)
-                if st == 'eq':
+                verdict = 'eq'
+                for r1 in each(r):
+                    st, info = FC.compare_vec(r1, tuple(exp), n)
+                    if st == 'differs':
+                        verdict = 'differs'
+                        res.violation('Bswap%d:%s:reverse' % (n, tg), '%s: result bit %d is %s, byte reversal requires %s; witness value: %s%s'
+                                      % (where, info[0], B.fmt_term(B.to_bits(r1, n)[info[0]]), B.fmt_term(exp[info[0]]), FC.fmt_env(info[1]),
+                                         ' (one of %d outcomes of __builtin_constant_p)' % len(each(r)) if isinstance(r, Multi) else ''))
+                        break
+                    if st != 'eq':
+                        verdict = 'unknown'
+                        res.undec('%s: bit %d undetermined' % (where, info))
+                        break
+                if verdict == 'eq':
                     res.ok()
-                elif st == 'differs':
-                    res.violation('Bswap%d:%s:reverse' % (n, tg), '%s: result bit %d is %s, byte reversal requires %s; witness value: %s'
-                                  % (where, info[0], B.fmt_term(B.to_bits(r, n)[info[0]]), B.fmt_term(exp[info[0]]), FC.fmt_env(info[1])))
-                else:
-                    res.undec('%s: bit %d undetermined' % (where, info))
                 # involution
                 r2, err = call(mod, 'h_Bswap%d' % n, r)
                 if r2 is None:
                     res.undec('%s (twice): %s' % (where, err))
-                elif FC.compare_vec(r2, arg(n), n)[0] == 'eq':
+                elif all(FC.compare_vec(x, arg(n), n)[0] == 'eq' for x in each(r2)):
                     res.ok()
                 else:
                     res.violation('Bswap%d:%s:involution' % (n, tg), '%s: applying the swap twice does not give the value back' % where)
@@ -117,14 +150,18 @@ def run(tier, res):
                     res.undec('%s: %s' % (where, err))
                     continue
                 if k.startswith('CpuTo'):
-                    img = image(r, n, big)
                     want_be = k == 'CpuToBe'
                     bad = None
-                    for a in range(nb):
-                        e = argbyte(n, nb - 1 - a if want_be else a)
-                        st, info = FC.compare_vec(img[a], e, 8)
-                        if st != 'eq':
-                            bad = (a, st, info, e)
+                    img = None
+                    for r1 in each(r):
+                        img = image(r1, n, big)
+                        for a in range(nb):
+                            e = argbyte(n, nb - 1 - a if want_be else a)
+                            st, info = FC.compare_vec(img[a], e, 8)
+                            if st != 'eq':
+                                bad = (a, st, info, e, img)
+                                break
+                        if bad:
                             break
                     if bad is None:
                         res.ok()
@@ -134,7 +171,7 @@ def run(tier, res):
                     elif bad[1] == 'differs':
                         res.violation('%s%d:%s:image' % (k, n, tg),
                                       '%s: octet %d of the stored result is %s, the %s-endian image requires %s; witness value: %s'
-                                      % (where, bad[0], B.fmt_vec(img[bad[0]], 8), 'big' if want_be else 'little',
+                                      % (where, bad[0], B.fmt_vec(bad[4][bad[0]], 8), 'big' if want_be else 'little',
                                          B.fmt_vec(bad[3], 8), FC.fmt_env(bad[2][1])))
                     else:
                         res.undec('%s: octet %d undetermined' % (where, bad[0]))
@@ -147,11 +184,12 @@ def run(tier, res):
                     r2, err = call(mod, fn, fwd)
                     if r2 is None:
                         res.undec('%s (after forward): %s' % (where, err))
-                    elif FC.compare_vec(r2, arg(n), n)[0] == 'eq':
+                    elif all(FC.compare_vec(x, arg(n), n)[0] == 'eq' for x in each(r2)):
                         res.ok()
                     else:
+                        bad2 = [x for x in each(r2) if FC.compare_vec(x, arg(n), n)[0] != 'eq'][0]
                         res.violation('%s%d:%s:inverse' % (k, n, tg),
-                                      '%s: does not invert Avtp_CpuTo%s%d: result %s' % (where, k[:2], n, B.fmt_vec(r2, n)))
+                                      '%s: does not invert Avtp_CpuTo%s%d: result %s' % (where, k[:2], n, B.fmt_vec(bad2, n)))
     # mirror images between the two preprocessor branches
     for n in SIZES:
         pairs = [('CpuToLe', 'CpuToBe'), ('CpuToBe', 'CpuToLe'), ('LeToCpu', 'BeToCpu'), ('BeToCpu', 'LeToCpu')]
@@ -160,7 +198,7 @@ def run(tier, res):
             res.count('mirror pairs compared')
             if ra is None or rb is None:
                 res.undec('mirror %s%d@le vs %s%d@be: undecided operand' % (a, n, b, n))
-            elif FC.compare_vec(ra, B.to_bits(rb, n), n)[0] == 'eq':
+            elif all(FC.compare_vec(x, B.to_bits(y, n), n)[0] == 'eq' for x in each(ra) for y in each(rb)):
                 res.ok()
             else:
                 res.violation('mirror:%s%d' % (a, n), 'include/avtp/Byteorder.h: Avtp_%s%d on a little-endian host and Avtp_%s%d on a '
